@@ -128,7 +128,7 @@ def check_mapping(ctx, case, src, dst):
                 fail(ctx, name, 'block_mapping:atmosphere-block', case, 'target atmosphere block %r -> %r' % (b, got),
                      'source atmosphere block %r' % (want,))
                 return mapping, colmap
-    case_key = ('bm', repr(case.get('src')), repr(case.get('dst')))
+    case_key = ('bm', repr(case.get('src')), repr(case.get('dst')), repr(case.get('then_src')), repr(case.get('then_dst')))
     ctx.count(case_key, nontrivial=nblocks > 0)
     return mapping, colmap
 
@@ -144,7 +144,23 @@ def check_self_identity(ctx, case, which, g):
     bad = [(k, v) for k, v in m.items() if k != v]
     if bad or set(m) != set(g.block_name_list):
         fail(ctx, name, 'block_mapping:self-not-identity', dict(case, which=which), 'first differences %r' % bad[:3], 'identity on all %d blocks' % g.num_blocks)
-    ctx.count(('self', repr(case.get(which))))
+    ctx.count(('self', repr(case.get(which)), repr(case.get('then_' + which))))
+
+
+def check_sequence(ctx, case, src, dst, repo):
+    """the statement does not depend on the history of the geometry objects: after mappings have been
+    computed, move / re-surface the source (then the target) IN PLACE and evaluate the statement again.
+    case: {'kind': 'sequence', 'src', 'dst', 'then_src': ops, 'then_dst': ops, 'nvar', 'vseed'}"""
+    for a, b in ((src, dst), (dst, src), (src, src), (dst, dst)):        # prime whatever state the objects keep
+        try: a.block_mapping(b, True)
+        except Exception: pass
+    G.apply_ops(src, case.get('then_src') or [])
+    G.apply_ops(dst, case.get('then_dst') or [])
+    c = dict(case, kind='sequence')
+    check_mapping(ctx, c, src, dst)
+    check_self_identity(ctx, c, 'src', src)
+    check_self_identity(ctx, c, 'dst', dst)
+    check_incon(ctx, c, src, dst, repo)
 
 
 # ---------------------------------------------------------------- t2incon.transfer_from
@@ -157,7 +173,8 @@ def make_incon(src, nvar, vseed, extras=True):
         var = [rng.choice([rng.uniform(-1e3, 1e7), float(rng.randint(-5, 5000)), rng.uniform(0, 1)]) for _ in range(nvar)]
         por = rng.choice([None, None, rng.uniform(0.01, 0.5)]) if extras else None
         seq = rng.choice([(None, None), (None, None), (rng.randint(0, 9), rng.randint(0, 9))]) if extras else (None, None)
-        inc[b] = t2blockincon(var, b, porosity=por, nseq=seq[0], nadd=seq[1])
+        perm = rng.choice([None, None, None, np.array([rng.uniform(1e-16, 1e-12) for _ in range(3)])]) if extras else None
+        inc[b] = t2blockincon(var, b, porosity=por, permeability=perm, nseq=seq[0], nadd=seq[1])
     return inc
 
 
@@ -293,6 +310,16 @@ def make_generators(geo, gseed, conforming_names=False):
                         ex=rng.choice([0.0, 1.2e6]), hg=rng.choice([0.0, 1.5]), fg=rng.choice([0.0, -0.5]))
         if rng.random() < 0.5: table(g)
         gens.append(g); used.add((b, nm))
+    # a generator attached to an atmosphere block (e.g. a source holding atmosphere conditions)
+    atm = atm_names(geo)
+    if atm and rng.random() < 0.6:
+        b = rng.choice(atm)
+        nm = geo.block_name(geo.layer_name(b), geo.column_name(b)) if conforming_names else \
+            ('a%2d' % 7 if geo.convention in (0, 3) else 'a').ljust(3)[:3] + 'y1'
+        if geo.layer_name(nm) not in (top, bot) and (b, nm) not in used:
+            g = t2generator(name=nm, block=b, type=rng.choice(['HEAT', 'MASS']), gx=rng.uniform(1, 20), ex=rng.choice([0.0, 1.0e5]))
+            if rng.random() < 0.3: table(g)
+            gens.append(g); used.add((b, nm))
     rng.shuffle(gens)
     return gens, [top], [bot]
 
